@@ -37,6 +37,7 @@ def configs(tier):
         out.append(dict(step="compound", P=P, A=2))
     for cls in ("calling-gibbs", "calling-mh"):  # CallingMCMC.fit -> greedy_caller / mcmc_sampler
         out.append(dict(group="class-wiring", cls=cls, step="wiring", P=1, A=1))
+        out.append(dict(group="refit", cls=cls, step="wiring", P=1, A=1))  # a reused model object: nothing of sample 1 reaches sample 2's sampler
     out.append(dict(group="llk-cache", step="wiring", P=1, A=1))  # the memoised likelihood the moves consume (shared with C09)
     for lp in ("calling-loop", "calling-loop-nocache"):  # mcmc_sampler -> compound_step, trace bookkeeping
         out.append(dict(group="loop-wiring", loop=lp, step="wiring", P=1, A=1))
@@ -83,11 +84,11 @@ def run_config(c, col):
         E.reset_modules()
         E.cfg.concrete_ints = True
         return c09.run_calling_dict_cache(col)
-    if c.get("group") in ("class-wiring", "loop-wiring"):
+    if c.get("group") in ("class-wiring", "loop-wiring", "refit"):
         from checks import wiring
 
         E.use_summaries(True)
-        return (wiring.run_class if c["group"] == "class-wiring" else wiring.run_loop)(c, col)
+        return {"class-wiring": wiring.run_class, "loop-wiring": wiring.run_loop, "refit": wiring.run_refit}[c["group"]](c, col)
     cm = _harness()
     if c["step"] == "compound":
         return _run_compound(c, col, cm)
@@ -279,10 +280,10 @@ def replay(v):
         from checks import c09
 
         return c09._replay_wrappers(v)
-    if v["config"].get("group") in ("class-wiring", "loop-wiring"):
+    if v["config"].get("group") in ("class-wiring", "loop-wiring", "refit"):
         from checks import wiring
 
-        return wiring.replay_real(v, wiring.run_class if v["config"]["group"] == "class-wiring" else wiring.run_loop)
+        return wiring.replay_real(v, {"class-wiring": wiring.run_class, "loop-wiring": wiring.run_loop, "refit": wiring.run_refit}[v["config"]["group"]])
     c = v["config"]
     m = v.get("model") or {}
     if c["step"] == "compound":
